@@ -82,6 +82,11 @@ class Types:
             return {'k': 'basic', 'cls': 'bool', 'name': 'bool'}
         if key == 'string':
             return {'k': 'basic', 'cls': 'string', 'name': 'string'}
+        if key == '$opaque':
+            return {'k': 'struct', 'fields': []}
+        if re.match(r'^[\w./-]+\.[A-Za-z_]\w*$', key):
+            # a named type that was not part of this export: only its identity (type tag) is usable
+            return {'k': 'named', 'name': key, 'under': '$opaque', 'methods': [], 'placeholder': True}
         return None
 
     def under(self, key):
